@@ -52,7 +52,7 @@ func c11Reregister(c *Ctx) error {
 			return fmt.Errorf("create webhook: %v", err)
 		}
 	}
-	phases := []int{maxTries + 2, 4, 4} // fail until deactivated (+ slack) | after re-registration | after a second one
+	phases := []int{maxTries + 2, 4, 4, 3} // fail until deactivated (+ slack) | after re-registration | after a second one | after the webhook was deleted
 	total := 0
 	for _, p := range phases {
 		total += p
@@ -62,7 +62,7 @@ func c11Reregister(c *Ctx) error {
 		nodes[i] = Node{Parent: i - 1, Bits: bitsSmall[0]}
 	}
 	buildTree(nodes, 11900+uint32(c.Seed), nil, false)
-	ops := []string{fmt.Sprintf("# c11 reregister: production webhook client, webhook.maxTries=%d; webhooks <loopback>/ok and <loopback>/flaky (answers 500 during phase 1) plus a recording channel; phases of %v headers (linear chain, seed %d); between the phases the receiver turns healthy and CreateWebhook is called again for <loopback>/flaky", maxTries, phases, c.Seed)}
+	ops := []string{fmt.Sprintf("# c11 reregister: production webhook client, webhook.maxTries=%d; webhooks <loopback>/ok and <loopback>/flaky (answers 500 during phase 1) plus a recording channel; phases of %v headers (linear chain, seed %d); between the phases the receiver turns healthy and CreateWebhook is called again for <loopback>/flaky; before the last phase DeleteWebhook(<loopback>/flaky)", maxTries, phases, c.Seed)}
 	stored, next := 0, 0
 	for ph, cnt := range phases {
 		name := fmt.Sprintf("re-registered webhook, phase %d (%d headers)", ph+1, cnt)
@@ -92,7 +92,12 @@ func c11Reregister(c *Ctx) error {
 				Signature: "c11-events:other-channels-after-reregistration"})
 			return nil
 		}
-		if ph+1 < len(phases) {
+		if ph+2 == len(phases) {
+			// last transition: the operator deletes the webhook; the remaining channels keep receiving
+			if err := ci.Svc.Webhooks.DeleteWebhook(srv.URL + "/flaky"); err != nil {
+				c.R.Count("c11 reregister: DeleteWebhook refused", 1)
+			}
+		} else if ph+1 < len(phases) {
 			bad.Store(false)
 			if _, err := ci.Svc.Webhooks.CreateWebhook("BEARER", "", "t", srv.URL+"/flaky"); err != nil {
 				// a refused re-registration is not this property's subject; the phases still run
